@@ -1,0 +1,59 @@
+//go:build verif
+
+/*
+ * Verification exports (add-only, compiled only with `-tags verif`): the stored (possibly
+ * encrypted) form of a table's blocks and index, for the encryption-at-rest checks.
+ */
+
+package table
+
+import "github.com/dgraph-io/badger/v4/fb"
+
+// VerifEncPart is one stored unit of a table file: a block or the index.
+// Raw = the bytes in the file (ciphertext followed by the 16-byte IV when the table is
+// encrypted); Plain = Raw after Table.decrypt (still compressed), = Raw when not encrypted.
+type VerifEncPart struct {
+	Offset int
+	Raw    []byte
+	Plain  []byte
+}
+
+// VerifEncParts returns the data-key id, every block and the index in stored and decrypted
+// form, and a copy of the whole file image.
+func (t *Table) VerifEncParts() (keyID uint64, blocks []VerifEncPart, index VerifEncPart, file []byte, err error) {
+	keyID = t.KeyID()
+	part := func(off, sz int) (VerifEncPart, error) {
+		raw, err := t.read(off, sz)
+		if err != nil {
+			return VerifEncPart{}, err
+		}
+		p := VerifEncPart{Offset: off, Raw: append([]byte{}, raw...)}
+		if t.shouldDecrypt() {
+			d, err := t.decrypt(raw, false)
+			if err != nil {
+				return p, err
+			}
+			p.Plain = append([]byte{}, d...)
+		} else {
+			p.Plain = append([]byte{}, raw...)
+		}
+		return p, nil
+	}
+	// block offsets come from the (decrypted) index, exactly as Table.block reads them
+	for i := 0; i < t.offsetsLength(); i++ {
+		var ko fb.BlockOffset
+		if !t.offsets(&ko, i) {
+			break
+		}
+		p, err := part(int(ko.Offset()), int(ko.Len()))
+		if err != nil {
+			return keyID, blocks, index, nil, err
+		}
+		blocks = append(blocks, p)
+	}
+	if index, err = part(t.indexStart, t.indexLen); err != nil {
+		return keyID, blocks, index, nil, err
+	}
+	file = append([]byte{}, t.readNoFail(0, t.tableSize)...)
+	return keyID, blocks, index, file, nil
+}
